@@ -6,7 +6,7 @@ FUNCTIONS = ["Manager.freeze_tree", "Manager.unfreeze_tree", "Manager.register",
              "Manager.register@protocol", "Manager.refresh", "Manager.load", "Manager.set_value",
              "Manager.copy_expr_from", "ExprTask.__init__"]
 # after a thawed refresh the indices equal F(registered tasks) (C03)
-BORROW = [("C03", ["Manager.refresh@rebuild", "Manager.register@rebuild"])]
+BORROW = [("C03", ["Manager.refresh@rebuild", "Manager.register@rebuild", "Manager.cleanup@abstract-identity"])]
 RAC = "rac/c17.py"
 RAC_BUDGET = {"quick": 60, "thorough": 900}
 RAC_MIN = {"quick": 2741, "thorough": 2741}      # fewer run-time evaluations than this = the harness skipped its work: checker broken, not "held"
@@ -19,7 +19,7 @@ TRUSTED = [
     "virtual callees assumed by contract: BaseRef._get_value (pure), MutableRef._set_value (one store; a raising store "
     "leaves the data unchanged), Task.run, BaseRef._get_dependencies (result = locs, proved under C05)",
     "ExprTask(...) constructor call runs ExprTask.__init__ on a fresh object (ExprTask.__init__ is proved)",
-    "Manager.cleanup is the identity on the abstract index state (absent == empty entry); checked at run time on supports",
+    "Manager.cleanup changes no count of any index: proved (Manager.cleanup@abstract-identity, borrowed from C03); absent entry == empty entry is the modelling decision (DESIGN 2.3(2))",
     "counting lemma / finite-sum axioms of C03", "z3 / cvc5", "Cython compilation of refs.py",
 ]
 ASSUMPTIONS = [
